@@ -36,10 +36,37 @@ static int refmodel() {
 	return bad ? 1 : 0;
 }
 
+// every plan executed twice in this process must give the same event-log hash
+static int determinism(uint64_t n) {
+	int bad = 0;
+	uint64_t runs = 0;
+	for (auto *e : all_engines()) {
+		for (const char *prop : {"C13", "C14", "C06", "C15", "C07", "C08", "C04", "C11", "C16"}) {
+			for (uint64_t i = 0; i < n; i++) {
+				Plan p = e->generate(sim::mix(0xd37, i), prop, 0);
+				RunResult a = e->execute(p, true), b = e->execute(p, true);
+				runs++;
+				if (a.hash != b.hash) {
+					bad++;
+					if (bad <= 3) {
+						RunResult &ta = a, &tb = b;
+						printf("determinism: engine %s prop %s seed-index %llu: %016llx vs %016llx\n", e->name(), prop, (unsigned long long)i, (unsigned long long)a.hash, (unsigned long long)b.hash);
+						for (size_t k = 0; k < ta.log.size() && k < tb.log.size(); k++) if (ta.log[k] != tb.log[k]) { printf("  first difference at line %zu:\n   A %s\n   B %s\n", k, ta.log[k].c_str(), tb.log[k].c_str()); break; }
+						if (ta.log.size() != tb.log.size()) printf("  log lengths %zu vs %zu\n", ta.log.size(), tb.log.size());
+					}
+				}
+			}
+		}
+	}
+	printf("selftest determinism: %s (%llu plans run twice, %d diverged)\n", bad ? "FAILED" : "ok", (unsigned long long)runs, bad);
+	return bad ? 1 : 0;
+}
+
 int cmd_selftest(const std::string &what) {
 	int rc = 0;
 	sim::K.reset(1600000000000LL);
 	if (what == "all" || what == "refmodel") rc |= refmodel();
+	if (what == "all" || what == "determinism") rc |= determinism(what == "all" ? 150 : 1500);
 	return rc ? 2 : 0;
 }
 
